@@ -237,13 +237,13 @@ fn main() {
         writeln!(out, "junit {}\t{} ## {} ## {}", if req.is_empty() { ".".to_string() } else { req.join(";") }, canon, summary, st).unwrap();
         let _ = case;
     }
-    // ---- hostile output: `xmltext <hex s> <hex strip_str(s)>\t<hex system-out read back>;<hex system-err read back>`
-    // (one failing test whose two streams are the same hostile text, stored; the model answers what `xml_string` makes of it)
+    // ---- hostile output: `xmltext <kind> <hex stdout> <hex strip_str(stdout)> <hex stderr> <hex strip_str(stderr)>\t<hex system-out read back>;<hex system-err read back>`
+    // (one failing test whose streams are hostile texts — split with either stream missing, combined, or not started —, stored; the model answers
+    // which text goes to which element (`set_execute_status_props`) and what `xml_string` makes of it)
     let pool: &[&str] = &["a", "Z", " ", "<", ">", "&", "\"", "'", "]]>", "<![CDATA[", "&amp;", "\t", "\n", "\r", "\r\n", "\x00", "\x01", "\x07", "\x08", "\x0b", "\x0c", "\x0e", "\x1f", "\x7f",
         "\x1b", "\x1b[31m", "\x1b[0m", "\x1b]0;t\x07", "\x1b[", "\u{80}", "\u{85}", "\u{9b}", "\u{9b}1m", "\u{9f}", "\u{a0}", "\u{fffe}", "\u{ffff}", "\u{fffd}", "\u{fffc}", "\u{fdd0}", "\u{d7ff}", "\u{e000}",
         "\u{10000}", "\u{1f600}", "\u{1fffe}", "\u{10ffff}", "日本", "thread 'main' panicked at src/lib.rs:1:1:\n", "error: "];
-    for _case in 0..n {
-        let _ = std::fs::remove_file(&junit_path);
+    let mut hostile = |rng: &mut Rng, dist: &mut BTreeMap<String, u64>| -> (Vec<u8>, String, String) {
         let len = rng.range(0, 14) as usize;
         let mut bytes: Vec<u8> = Vec::new();
         for _ in 0..len {
@@ -257,15 +257,29 @@ fn main() {
             if s.chars().any(f) { *dist.entry(k.into()).or_insert(0) += 1; }
         }
         if stripped != s { *dist.entry("xml:ansi-changes".into()).or_insert(0) += 1; }
+        (bytes, s, stripped)
+    };
+    const KINDS: &[&str] = &["split", "split", "split", "outonly", "erronly", "neither", "combined", "combined", "starterr"];
+    for _case in 0..n {
+        let _ = std::fs::remove_file(&junit_path);
+        let kind = *rng.pick(KINDS);
+        *dist.entry(format!("xml:kind:{kind}")).or_insert(0) += 1;
+        let (obytes, s, stripped) = hostile(&mut rng, &mut dist);
+        let (ebytes, s2, stripped2) = hostile(&mut rng, &mut dist);
         let mut buf: Vec<u8> = Vec::new();
         let t = instances[rng.below(instances.len() as u64) as usize];
         let mut stats = RunStats::default();
         {
             let mut reporter = ReporterBuilder::default().build(&list, &profile, ReporterStderr::Buffer(&mut buf), StructuredReporter::new());
             let now = Local::now().fixed_offset();
-            let res = ExecutionResult::Fail { abort_status: None, leaked: false };
-            let output = ChildExecutionOutput::Output { result: Some(res),
-                output: ChildOutput::Split(ChildSplitOutput { stdout: Some(Bytes::from(bytes.clone()).into()), stderr: Some(Bytes::from(bytes.clone()).into()) }), errors: None };
+            let res = if kind == "starterr" { ExecutionResult::ExecFail } else { ExecutionResult::Fail { abort_status: None, leaked: false } };
+            let so = || Some(Bytes::from(obytes.clone()).into()); let se = || Some(Bytes::from(ebytes.clone()).into());
+            let split = |o, e| ChildExecutionOutput::Output { result: Some(res), output: ChildOutput::Split(ChildSplitOutput { stdout: o, stderr: e }), errors: None };
+            let output = match kind {
+                "split" => split(so(), se()), "outonly" => split(so(), None), "erronly" => split(None, se()), "neither" => split(None, None),
+                "combined" => ChildExecutionOutput::Output { result: Some(res), output: ChildOutput::Combined { output: Bytes::from(obytes.clone()).into() }, errors: None },
+                _ => ChildExecutionOutput::StartError(nextest_runner::errors::ChildStartError::Spawn(std::sync::Arc::new(std::io::Error::other("no such file")))),
+            };
             let statuses = vec![ExecuteStatus { retry_data: RetryData { attempt: 1, total_attempts: 1 }, output, result: res, start_time: now, time_taken: Duration::from_secs(1), is_slow: false, delay_before_start: Duration::ZERO }];
             let run_statuses = ExecutionStatuses::verif_new(statuses);
             stats.verif_on_test_finished(&run_statuses);
@@ -298,7 +312,7 @@ fn main() {
                 }
             }
         };
-        writeln!(out, "xmltext {} {}\t{}", hexs(&s), hexs(&stripped), got).unwrap();
+        writeln!(out, "xmltext {} {} {} {} {}\t{}", kind, hexs(&s), hexs(&stripped), hexs(&s2), hexs(&stripped2), got).unwrap();
     }
     out.flush().unwrap();
     let d: Vec<String> = dist.iter().map(|(k, v)| format!("{}={}", k, v)).collect();
